@@ -1,8 +1,199 @@
-/- driver component stub: replaced by the real component when its model exists -/
+/- driver component `heap`: the reference-level model of Position objects (C05) -/
 import TakVerif.Driver.Ser
+import TakVerif.Model.Heap
 
 namespace Tak.Driver.Heap
+open Tak.Ser Tak.HeapModel
 
-def handle : List String → Option String := fun _ => none
+def hposOf (p : Pos) (b : Ref) : HPos := ⟨p.size, p.wStones, p.wCaps, p.bStones, p.bCaps, p.ply, b⟩
+
+def showResult : Except Err Pos → String
+  | .ok q => s!"ok {showPos q}"
+  | .error e => showErr e
+
+/-- sharing description of a board handed in by the harness, one token per square:
+    `n` own new list, `=j` the same list object as square `j` of this board, `k.i` the list
+    object at square `i` of retained position `k`.  `-` = all `n`; `e` = every empty square
+    refers to ONE list (as after `[[]] * n`). -/
+def parseSrcTok (s : Stack) (t : String) : Option SqSrc :=
+  if t = "n" then some (.fresh s)
+  else if t.startsWith "=" then (t.drop 1).toNat?.map .own
+  else match t.splitOn "." with
+    | [k, i] => do
+      let k ← k.toNat?
+      let i ← i.toNat?
+      pure (.shared k i)
+    | _ => none
+
+def aliasEmpty : List Stack → Nat → Option Nat → List SqSrc
+  | [], _, _ => []
+  | s :: rest, i, first =>
+    if s.isEmpty then
+      match first with
+      | none => .fresh s :: aliasEmpty rest (i + 1) (some i)
+      | some j => .own j :: aliasEmpty rest (i + 1) (some j)
+    else .fresh s :: aliasEmpty rest (i + 1) first
+
+def parseSrcs (board : List Stack) (spec : String) : Option (List SqSrc) :=
+  if spec = "-" then some (board.map .fresh)
+  else if spec = "e" then some (aliasEmpty board 0 none)
+  else
+    let toks := spec.splitOn ","
+    if toks.length ≠ board.length then none
+    else (board.zip toks).mapM fun (s, t) => parseSrcTok s t
+
+/-- adopt a harness-described board into the world; `none` if the description is
+    inconsistent (a shared list would not hold the stated content) -/
+def adopt (w : World) (p : Pos) (spec : String) : Option (World × HPos) := do
+  let srcs ← parseSrcs p.board spec
+  let r := hAdopt w.heap w.kept (hposOf p 0) srcs
+  let hp ← r.2
+  if den r.1 hp = p then pure (⟨r.1, w.kept ++ [hp]⟩, hp) else none
+
+def parseTable (s : String) : Option (List (Nat × Nat)) :=
+  if s = "-" then some [] else
+  (s.splitOn ",").mapM fun t =>
+    match t.splitOn ":" with
+    | [d, s] => do
+      let d ← d.toNat?
+      let s ← s.toNat?
+      pure (d, s)
+    | _ => none
+
+def pcharOf : Char → Option PChar
+  | '1' => some .one
+  | '2' => some .two
+  | 'S' => some .markS
+  | 'C' => some .markC
+  | _ => none
+
+/-- one item of a TPS row, already split at `,` by the harness's own writer: `x`, `x3`, `12S` -/
+def parseItem (t : String) : Option RowItem :=
+  if t = "x" then some (.empties 1)
+  else if t.startsWith "x" then (t.drop 1).toNat?.map .empties
+  else (t.toList.mapM pcharOf).map .pieces
+
+def parseRows (s : String) : Option (List (List RowItem)) :=
+  (s.splitOn "/").mapM fun row => (row.splitOn ",").mapM parseItem
+
+/-- abstract decode tokens: `E` empty, `T<letter>` a top piece, `Ua`/`Ud` a white/black flat
+    under the top -/
+def parseDTok (t : String) : Option DTok :=
+  match t.toList with
+  | ['E'] => some .empty
+  | ['T', c] => (pieceOfChar c).map .top
+  | ['U', 'a'] => some (.under .white)
+  | ['U', 'd'] => some (.under .black)
+  | _ => none
+
+def parseDToks (s : String) : Option (List DTok) :=
+  if s = "-" then some [] else (s.splitOn ",").mapM parseDTok
+
+/-- number of distinct list objects among the squares of a position -/
+def distinctCells (h : Heap) (hp : HPos) : Nat := (refsAt h hp.board).eraseDups.length
+
+/-- split a token list at `;` -/
+def splitOps : List String → List (List String)
+  | [] => [[]]
+  | t :: rest =>
+    match splitOps rest with
+    | [] => [[t]]
+    | cur :: more => if t = ";" then [] :: cur :: more else (t :: cur) :: more
+
+/-- one script operation; `created` records what each retained position denoted when it
+    was created -/
+def scriptStep (st : World × List Pos) (op : List String) : Option (World × List Pos) :=
+  let (w, created) := st
+  let keep (w' : World) : World × List Pos :=
+    if w'.kept.length > w.kept.length then
+      match w'.kept.getLast? with
+      | some hp => (w', created ++ [den w'.heap hp])
+      | none => (w', created)
+    else (w', created)
+  match op with
+  | "new" :: rest => do
+    let p ← parsePos (rest.take 7)
+    let spec ← (rest.drop 7).head?
+    let (w', _) ← adopt w p spec
+    pure (keep w')
+  | "mv" :: k :: rest => do
+    let k ← k.toNat?
+    let m ← parseMove rest
+    if k < w.kept.length then pure (keep (step w (.move k m))) else none
+  | ["tr", k, table] => do
+    let k ← k.toNat?
+    let table ← parseTable table
+    if k < w.kept.length then pure (keep (step w (.transform k table))) else none
+  | ["parse", ply, rows] => do
+    let ply ← ply.toInt?
+    let rows ← parseRows rows
+    pure (keep (step w (.parse rows ply)))
+  | "dec" :: rest => do
+    let p ← parsePos (rest.take 6 ++ ["."])
+    let toks ← (rest.drop 6).head? >>= parseDToks
+    pure (keep (step w (.decode (hposOf p 0) toks)))
+  | _ => none
+
+/-- ops:
+  `hmove <pos7> <sharing> <move4>` → `<ok pos|illegal|crash c> alloc=<n> frame=<b> src=<b>`
+       (n = cells allocated by the call, frame = every old cell unchanged, src = the position
+        moved from denotes the same value afterwards)
+  `inplace <pos7> <sharing> <move4>` → the same for the deliberately wrong `hMovePlaceInPlace`
+  `run <op> ; <op> ; …`  → `ok cells=<n> stable=<b> <pos7>|<pos7>|…`  (what every retained
+        position denotes at the END; stable = each equals what it denoted when created)
+  `parse <ply> <rows>`   → `<ok pos|illegal|crash c> cells=<distinct list objects on the board>`
+  `decode <sc6> <toks>`  → `<ok pos|…>`
+  `transform <pos7> <sharing> <table>` → `<ok pos|…> shared=<b>` (b = every square of the image
+        is one of the source's own list objects)
+-/
+def handle : List String → Option String
+  | "hmove" :: rest => do
+    let p ← parsePos (rest.take 7)
+    let spec ← (rest.drop 7).head?
+    let m ← parseMove (rest.drop 8)
+    let (w, hp) ← adopt World.empty p spec
+    let r := hMove w.heap hp m
+    let frame := decide (r.1.take w.heap.length = w.heap)
+    let src := decide (den r.1 hp = p)
+    pure s!"{showResult (denR r)} alloc={r.1.length - w.heap.length} frame={frame} src={src}"
+  | "inplace" :: rest => do
+    let p ← parsePos (rest.take 7)
+    let spec ← (rest.drop 7).head?
+    let m ← parseMove (rest.drop 8)
+    let (w, hp) ← adopt World.empty p spec
+    let r := hMovePlaceInPlace w.heap hp m
+    let frame := decide (r.1.take w.heap.length = w.heap)
+    let src := decide (den r.1 hp = p)
+    pure s!"{showResult (denR r)} alloc={r.1.length - w.heap.length} frame={frame} src={src}"
+  | "run" :: rest => do
+    let ops := (splitOps rest).filter (· ≠ [])
+    let (w, created) ← ops.foldlM scriptStep (World.empty, [])
+    let now := w.kept.map (den w.heap)
+    let stable := decide (now = created)
+    pure s!"ok cells={w.heap.length} stable={stable} {"|".intercalate (now.map showPos)}"
+  | ["parse", ply, rows] => do
+    let ply ← ply.toInt?
+    let rows ← parseRows rows
+    let r := hParseTPS [] rows ply
+    match r.2 with
+    | .ok hp => pure s!"ok {showPos (den r.1 hp)} cells={distinctCells r.1 hp}"
+    | .error e => pure (showErr e)
+  | "decode" :: rest => do
+    let p ← parsePos (rest.take 6 ++ ["."])
+    let toks ← (rest.drop 6).head? >>= parseDToks
+    pure (showResult (denR (hDecode [] (hposOf p 0) toks)))
+  | "transform" :: rest => do
+    let p ← parsePos (rest.take 7)
+    let spec ← (rest.drop 7).head?
+    let table ← (rest.drop 8).head? >>= parseTable
+    let (w, hp) ← adopt World.empty p spec
+    let r := hTransform w.heap hp table
+    match r.2 with
+    | .ok hp' =>
+      let src := refsAt w.heap hp.board
+      let shared := (refsAt r.1 hp'.board).all (src.contains ·)
+      pure s!"ok {showPos (den r.1 hp')} shared={shared}"
+    | .error e => pure (showErr e)
+  | _ => none
 
 end Tak.Driver.Heap
